@@ -62,6 +62,17 @@ func (e *Engine) FindSubmatchAt(haystack []byte, at int) *MatchWithCaptures {
 // findSubmatchAtWithState is the state-reusing internal version of FindSubmatchAt.
 // Used by FindAllSubmatch to avoid per-match sync.Pool get/put overhead.
 func (e *Engine) findSubmatchAtWithState(haystack []byte, at int, state *SearchState) *MatchWithCaptures {
+	// Leftmost-longest mode: only the NFA simulation applies the longest-match
+	// rule (to the overall match and to the choice of sub-matches).
+	if e.longest {
+		atomic.AddUint64(&e.stats.NFASearches, 1)
+		nfaMatch := state.pikevm.SearchWithSlotTableCapturesAt(haystack, at)
+		if nfaMatch == nil {
+			return nil
+		}
+		return NewMatchWithCaptures(haystack, nfaMatch.Captures)
+	}
+
 	// For position 0, try OnePass DFA if available (10-20x faster for anchored patterns).
 	// OnePass handles captures natively — no need for two-phase search.
 	if at == 0 && e.onepass != nil && state.onepassCache != nil {
@@ -155,7 +166,7 @@ func slotsToCaptures(slots []int) [][]int {
 // This method is optimized for patterns like \w+, \d+, [a-z]+ where matches are frequent.
 func (e *Engine) FindAllIndicesStreaming(haystack []byte, n int, results [][2]int) [][2]int {
 	// Only CharClassSearcher benefits from streaming - others use standard loop
-	if e.strategy != UseCharClassSearcher || e.charClassSearcher == nil {
+	if e.strategy != UseCharClassSearcher || e.charClassSearcher == nil || e.longest {
 		return e.findAllIndicesLoop(haystack, n, results)
 	}
 
@@ -214,7 +225,7 @@ func (e *Engine) findAllIndicesLoop(haystack []byte, n int, results [][2]int) []
 	// DFA fast path: call DFA functions directly, skip meta prefilter layer.
 	// SearchFirstAt has integrated prefilter at start state — no duplicate scan.
 	// Saves: 1 prefilter call per candidate + function dispatch overhead.
-	useDFADirect := (e.strategy == UseDFA || e.strategy == UseBoth) &&
+	useDFADirect := !e.longest && (e.strategy == UseDFA || e.strategy == UseBoth) &&
 		e.dfa != nil && e.reverseDFA != nil &&
 		state.dfaCache != nil && state.revDFACache != nil
 
@@ -310,7 +321,7 @@ func (e *Engine) Count(haystack []byte, n int) int {
 
 	// DFA fast path: call DFA functions directly, skip meta prefilter layer.
 	// SearchAt has integrated prefilter at start state — no duplicate scan.
-	useDFADirect := (e.strategy == UseDFA || e.strategy == UseBoth) &&
+	useDFADirect := !e.longest && (e.strategy == UseDFA || e.strategy == UseBoth) &&
 		e.dfa != nil && e.reverseDFA != nil &&
 		state.dfaCache != nil && state.revDFACache != nil
 
